@@ -107,13 +107,21 @@ structure Inv (w : World) : Prop where
 theorem Inv_init (cfg : Cfg) : Inv (World.init cfg) := by
   constructor
   · intro e he
-    simp [World.init] at he
-    subst he
-    simp [World.init, getO]
+    simp only [World.init, initObjs] at he ⊢
+    cases hs : cfg.simul
+    · simp only [hs, Bool.false_eq_true, if_false, List.mem_singleton] at he ⊢
+      subst he
+      simp [getO]
+    · simp only [hs, if_true, List.mem_cons, List.mem_singleton, List.not_mem_nil, or_false] at he ⊢
+      rcases he with he | he <;> subst he <;> simp [getO, masterOid, simulOid]
   · intro e he
-    simp [World.init] at he
-    subst he
-    simp
+    simp only [World.init, initObjs] at he
+    cases hs : cfg.simul
+    · simp only [hs, Bool.false_eq_true, if_false, List.mem_singleton] at he
+      subst he
+      simp
+    · simp only [hs, if_true, List.mem_cons, List.mem_singleton, List.not_mem_nil, or_false] at he
+      rcases he with he | he <;> subst he <;> simp
 
 theorem Inv_setO {w : World} (h : Inv w) (o : Obj) (ho : o.uid ≠ none) (w1 : World) (hw1 : w1.objs = setO w.objs o) :
     Inv w1 := by
